@@ -109,6 +109,15 @@ EXTRA_PAIRS = [
     ("MT2", ["C05"]),    # the cluster count fixed at mount is the capacity the volume hands out
     ("WT1", ["C05"]),    # an entry / data block that is not written back leaves allocated clusters ownerless, or reports data as written that is not on the medium
     ("MD3", ["C02"]),    # a create that is not refused for an existing name leaves two entries of that name on the medium
+    # --- round 12
+    ("MD7", ["C11"]),    # a call that fails (on a device error too) leaves no table slot / handle behind: every handle can still be used and closed
+    ("IS4", ["C09", "C10"]),   # a mount that refuses a stale but harmless FSInfo record makes the whole volume - flushed files included - unreachable after a power cut
+    ("FT4", ["C10"]),    # a chain link written with lost bits refers to free space on the medium
+    ("LS4", ["C05"]),    # a delete walk that does not reach the entry leaves the file's clusters allocated for good
+    ("PV1", ["C02"]),    # a cache block of the wrong class (the boot sector) rewritten: something the history did not touch changes on the medium
+    ("MT4", ["C04"]),    # a volume mounted at the wrong place / with a misread sector size writes outside the regions its BPB describes
+    ("MD4", ["C04"]),    # deleting a directory frees clusters an open directory handle still refers to: later writes through it land in other files' data
+    ("CB1", ["C15"]),    # where the data area's clusters are: files placed by another formatter are found only if cluster n is at first_data_block + (n-2)*blocks_per_cluster
     ("MD8", ["C03"]),    # an append handle whose cursor does not name the cluster of its offset writes into the wrong cluster and records a length the chain does not cover
 ]
 EXTRA = {}
